@@ -159,7 +159,7 @@ func C10(rep *ev.Reporter, tier string) {
 			for i, q1 := range seqs {
 				for j, q2 := range small {
 					emit(Case{ID: fmt.Sprintf("c10/k2/%d.%d/hi%v", i, j, salHi), Rules: []*grl.Rule{mk("r1", []string{"r2"}, q1, s1), mk("r2", []string{"r1"}, q2, nil)},
-						Worlds: []func() *ref.World{world}, WorldNames: []string{"zero"}, Opts: hx.RunOpts{MaxCycle: 8},
+						Worlds: []func() *ref.World{world}, WorldNames: []string{"zero"}, Opts: hx.RunOpts{MaxCycle: 8}, Reuse: true,
 						Meta: map[string]string{"r1": strings.Join(q1, ","), "r2": strings.Join(q2, ",")}})
 				}
 			}
@@ -184,5 +184,5 @@ func C10(rep *ev.Reporter, tier string) {
 		}
 	}
 	RunFamily(rep, gen, 20000, bud, judgeC10)
-	rep.Coverage["rule"] = "every rule set of 2 rules (r1: every action list of length <= 2 (thorough 3) over {assignment, Retract(self), Retract(other), Retract(\"Unknown\"), Complete()}; r2: 8 lists) and of 3 rules (r1: every list of length <= 2 incl. Retract(second other); r2: 6, r3: 4 lists), equal saliences and r1 dominant, every rule order at every cycle. Oracle: model retract set / complete flag followed along the trace: a retracted rule is never evaluated or fired again in the run, every other rule is evaluated in every cycle with the status of its fresh evaluation, an unknown name changes nothing, all actions of the rule (also those after Retract/Complete) run, no cycle begins after Complete and Execute returns nil. Non-trivial: a Retract of an existing rule followed by a further cycle, or a Complete."
+	rep.Coverage["rule"] = "every rule set of 2 rules (r1: every action list of length <= 2 (thorough 3) over {assignment, Retract(self), Retract(other), Retract(\"Unknown\"), Complete()}; r2: 8 lists) and of 3 rules (r1: every list of length <= 2 incl. Retract(second other); r2: 6, r3: 4 lists), equal saliences and r1 dominant, every rule order at every cycle; every 2-rule run additionally as the second Execute of one instance (new data context and facts). Oracle: model retract set / complete flag followed along the trace: a retracted rule is never evaluated or fired again in the run, every other rule is evaluated in every cycle with the status of its fresh evaluation, an unknown name changes nothing, all actions of the rule (also those after Retract/Complete) run, no cycle begins after Complete and Execute returns nil. Non-trivial: a Retract of an existing rule followed by a further cycle, or a Complete."
 }
